@@ -457,6 +457,9 @@ def r5_to_string(ck, prog, run):
     # and doubles just inside +-1/2
     vals += [(5, "-1/1152921504606846976"), (-5, "1/1152921504606846976"), (0, "-1/1180591620717411303424"), (7, "1/4611686018427387904"),
              (5, "9007199254740991/18014398509481984"), (-8, "-9007199254740991/18014398509481984"), (3, "-1/36028797018963968")]
+    # doubles whose sum with 1/4 prints with one or two decimals (0.05 + 0.25 -> '0.3', 0.1 + 0.25 -> '0.35'): the digit
+    # arithmetic of the small-fraction branch has separate cases for these
+    vals += [(3, "3602879701896397/72057594037927936"), (0, "5404319552844595/36028797018963968"), (2, "3602879701896397/36028797018963968"), (-4, "3602879701896397/18014398509481984"), (6, "5764607523034235/576460752303423488"), (1, "1080863910568919/4503599627370496")]
     precs = [None, 0, 1, 2, 3, 6]
     if run.tier == "thorough":
         vals += [(10**12, "1/2"), (-10**9, "-7/16"), (7, "-127/256"), (0, "1/1024"), (1, "-1/1024"), (99, "63/64"), (-99, "-63/64")]
